@@ -439,7 +439,9 @@ def check_poly(ev, acc, prop, x, xf, q, qf, lane_res, tol0, l, nv):
                 viol(acc, ev, f"{prop}:poly", f"non-finite result for q={qq!r} lane {l}")
                 nviol += 1
             continue
-        exact = sum(c * qf[k] ** p for p, c in enumerate(coef))
+        exact = qf[k] * 0
+        for c in reversed(coef):
+            exact = exact * qf[k] + c
         i = X.bracket(x, qq)
         tol = tol0 * X.t_amp(xf, i, qf[k])
         err = abs(N(r) - exact)
